@@ -49,16 +49,20 @@ func (tw *trimWriter) TrimRight() {
 	tw.trim = true
 }
 
-// BeginExact and EndExact bracket output that is not literal template text — a
-// value printed by an object, the body of a raw block. Whitespace control
-// leaves it alone: a pending right trim has no text to trim, and a later left
-// trim does not reach back into it.
-func (tw *trimWriter) BeginExact() {
+// BeginExact and EndExact bracket what is not literal template text — a value
+// printed by an object, the body of a raw block, a tag or block with whatever
+// it renders. Whitespace control works on the literal text next to a marker
+// only: a right trim pending when such a construct begins or ends has no text
+// to trim, and a left trim does not reach across it into text further back.
+func (tw *trimWriter) BeginExact() error {
 	tw.trim = false
+	_, err := tw.Flush()
+	return err
 }
 
 // EndExact ends what BeginExact began.
 func (tw *trimWriter) EndExact() error {
+	tw.trim = false
 	_, err := tw.Flush()
 	return err
 }
